@@ -256,12 +256,27 @@ theorem buildIn_spec (out : Dict V (Dict V (List L))) (ho : Nodup2 out) (inn : D
 
 theorem buildInDict_spec (out : Dict V (Dict V (List L))) (ho : Nodup2 out) :
     Nodup2 (buildInDict out) ∧
-    (∀ w, w ∈ (buildInDict out).keys ↔ ∃ v row, out.get? v = some row ∧ w ∈ row.keys) ∧
+    (∀ w, w ∈ (buildInDict out).keys ↔ w ∈ out.keys ∨ ∃ v row, out.get? v = some row ∧ w ∈ row.keys) ∧
     (∀ w v, ((buildInDict out).get? w).bind (·.get? v) = (out.get? v).bind (·.get? w)) := by
   unfold buildInDict; rw [buildInDict_eq]
-  obtain ⟨h1, h2, h3⟩ := buildIn_spec out ho [] ⟨by simp, by simp⟩
-  refine ⟨h1, by intro w; rw [h2]; simp, ?_⟩
-  intro w v; rw [h3]; simp
+  have hkeys : Dict.keys (out.map fun row => (row.1, ([] : Dict V (List L)))) = out.keys :=
+    keys_mapVal out (fun _ _ => ([] : Dict V (List L)))
+  have hget : ∀ k, Dict.get? (out.map fun row => (row.1, ([] : Dict V (List L)))) k = (out.get? k).map (fun _ => []) :=
+    fun k => get?_mapVal out (fun _ _ => ([] : Dict V (List L))) k
+  have hinit : Nodup2 (out.map fun row => (row.1, ([] : Dict V (List L)))) := by
+    refine ⟨by rw [hkeys]; exact ho.1, ?_⟩
+    intro k row hrow
+    rw [hget] at hrow
+    cases hk : out.get? k with
+    | none => rw [hk] at hrow; cases hrow
+    | some r =>
+      rw [hk] at hrow
+      simp only [Option.map_some, Option.some.injEq] at hrow
+      rw [← hrow]; simp
+  obtain ⟨h1, h2, h3⟩ := buildIn_spec out ho _ hinit
+  refine ⟨h1, by intro w; rw [h2, hkeys], ?_⟩
+  intro w v; rw [h3, hget]
+  cases out.get? w <;> simp
 
 
 /-! ### `_from_graph_dict` -/
@@ -319,11 +334,15 @@ theorem wf_ofGraph (graph : Dict V (Dict L V)) (st : List V) (hg : Nodup2 graph)
     exact hc v nbrs l w h1 ((mem_labelsTo w nbrs l).1 hl)
   refine ⟨⟨⟨hg.1, hout.1, hi1.1, hg.2, hout.2, hi1.2⟩, ?_, ?_, ?_, ?_, ?_, ?_⟩, ?_⟩
   · intro v; rw [ofGraph_out_keys]; rfl
-  · intro w hw
-    obtain ⟨v, row, h1, h2⟩ := (hi2 w).1 hw
-    rw [ofGraph_out_keys]
-    obtain ⟨ls, hls⟩ := (mem_keys_iff _ _).1 h2
-    exact hclosed v w ls (by rw [og_def, h1]; exact hls)
+  · intro w
+    show w ∈ (buildInDict (ofGraph graph st).out).keys ↔ _
+    rw [hi2 w, ofGraph_out_keys]
+    constructor
+    · rintro (hw | ⟨v, row, h1, h2⟩)
+      · exact hw
+      · obtain ⟨ls, hls⟩ := (mem_keys_iff _ _).1 h2
+        exact hclosed v w ls (by rw [og_def, h1]; exact hls)
+    · intro hw; exact Or.inl hw
   · intro v w; rw [ig_def, og_def]; exact (hi3 w v).symm
   · intro v l w
     rw [step_def, ofGraph_og]
